@@ -152,6 +152,28 @@ Theorem C02_additive_privacy : forall F (K : fops F), flaws K -> forall (l : lis
 Proof. exact @additive_privacy. Qed.
 Print Assumptions C02_additive_privacy.
 
+(* ISN (replicated additive sharing over the maximal unqualified sets) *)
+Theorem C02_isn_correct : forall F (K : fops F), flaws K -> forall p mus (summands : list F) ids,
+  length summands = length mus -> is_qualified p ids = true ->
+  (forall k, (k < length mus)%nat -> exists id, In id ids /\ ~ In id (nth k mus [])) ->
+  isn_reconstruct K p mus (isn_deal mus summands ids) = Some (fsum K summands).
+Proof. exact @isn_correct. Qed.
+Print Assumptions C02_isn_correct.
+
+Theorem C02_isn_exact : forall F (K : fops F) p mus (shares : list (isn_share (F:=F))),
+  is_qualified p (map fst shares) = false -> isn_reconstruct K p mus shares = None.
+Proof. exact @isn_exact. Qed.
+Print Assumptions C02_isn_exact.
+
+(* holders that all lie in one maximal unqualified set never see that set's summand *)
+Theorem C02_isn_privacy : forall F (K : fops F), flaws K -> forall mus (summands : list F) ids k d,
+  length summands = length mus -> (k < length summands)%nat ->
+  (forall id, In id ids -> In id (nth k mus [])) ->
+  isn_deal mus (upd k (fadd K (nth k summands (f0 K)) d) summands) ids = isn_deal mus summands ids /\
+  fsum K (upd k (fadd K (nth k summands (f0 K)) d) summands) = fadd K (fsum K summands) d.
+Proof. exact @isn_privacy. Qed.
+Print Assumptions C02_isn_privacy.
+
 (* ---- hypotheses are satisfiable: threshold (2,3) over Z_7, a CNF and a unanimity MSP ------------------ *)
 Definition K7 := ZpS 7 (prime_gt0 7 prime_7).
 Definition fromN7 (n : N) := zp_of 7 (prime_gt0 7 prime_7) (Z.of_N n).
